@@ -287,7 +287,7 @@ def run (lines : Array String) : Driver.Report := Id.run do
     let (ires, idump) := splitRes impl
     match Driver.words op with
     | ["mempool", "reset", pmax, rmax] =>
-      let s0 := init { parkedMax := pmax.toNat!, resultsMax := rmax.toNat! }
+      let s0 := init { parkedMax := pmax.toNat!, resultsMax := rmax.toNat!, reportFailedMoves := true }
       st := { model := some s0, pmax := pmax.toNat! }
       r := r.check n line impl s!"ok | {dump s0 0}"
       r := r.bump "sessions"
